@@ -161,7 +161,8 @@ for _n in ('BaseException', 'Exception', 'ValueError', 'TypeError',
            'IndexError', 'KeyError', 'LookupError', 'AttributeError',
            'StopIteration', 'ZeroDivisionError', 'ArithmeticError',
            'AssertionError', 'RuntimeError', 'OverflowError',
-           'UnicodeDecodeError', 'UnicodeError', 'NotImplementedError'):
+           'UnicodeDecodeError', 'UnicodeEncodeError', 'UnicodeError',
+           'NotImplementedError', 'MemoryError', 'RecursionError'):
     _c = getattr(__import__('builtins'), _n)
     BUILTIN_EXC[_n] = ClassRef(_n, tuple(b.__name__ for b in _c.__bases__
                                           if b is not object), 'builtins')
